@@ -193,43 +193,86 @@ def inline_dict(F, d, crate, inline_ids, flat_cache, stack=()):
         if cb.id not in flat_cache:
             flat_cache[cb.id] = inline_dict(F, cb.d, cb.crate, inline_ids, flat_cache, stack + (d['id'],))[0]
         c = flat_cache[cb.id]
-        call = body.calls[bb]
         term = nd['blocks'][bb]['term']
         gm = {}
         gens = [g for g in c.get('generics', [])]
         ga = term['f']['fn'].get('gargs', []) if 'fn' in term['f'] else []
         if gens and len(gens) == len(ga):
             gm = {g: a for g, a in zip(gens, ga) if g != a and not g.startswith("'")}
-        off_l, off_b = len(nd['locals']), len(nd['blocks'])
-        nd['locals'] += [dict(l, ty=_subst_ty(l['ty'], gm)) for l in c['locals']]
-        ln = term.get('fl', nd['blocks'][bb].get('tln', 0))
-        # arguments -> parameter locals
-        for i, a in enumerate(term['args']):
-            nd['blocks'][bb]['stmts'].append({'k': 'a', 'p': {'l': off_l + i + 1, 'p': []}, 'rv': {'k': 'use', 'op': a}, 'ln': ln, 'inl': cb.id})
-        tgt = term['t']
-        nd['blocks'][bb]['term'] = {'k': 'goto', 't': off_b}
-        nd['blocks'][bb]['inlined_call'] = cb.id
-        for blk in c['blocks']:
-            nb = dict(blk)
-            nb['stmts'] = [dict(s, p=_shift_place(s['p'], off_l), rv=_shift_rv(s['rv'], off_l, gm)) if s['k'] == 'a' else s for s in blk['stmts']]
-            t = blk['term']
-            if t['k'] == 'return':
-                nb['stmts'] = nb['stmts'] + [{'k': 'a', 'p': term['dest'], 'rv': {'k': 'use', 'op': {'m': {'l': off_l, 'p': []}}}, 'ln': blk.get('tln', ln), 'inl': cb.id}]
-                nb['term'] = {'k': 'goto', 't': tgt} if tgt is not None and tgt >= 0 else {'k': 'unreachable'}
-            elif t['k'] == 'resume' and isinstance(term.get('uw'), int) and term['uw'] >= 0:
-                nb['term'] = {'k': 'goto', 't': term['uw']}
-            else:
-                nb['term'] = _shift_term(t, off_l, off_b, gm)
-            nb['from_body'] = blk.get('from_body', cb.id)
-            nd['blocks'].append(nb)
+        _splice(nd, bb, c, cb.id, [(i + 1, a) for i, a in enumerate(term['args'])], gm)
         inlined.append(cb.id)
+    # closures handed to an inlined helper and called there (`fn for_both(&mut self, f: impl Fn(&mut dyn Tracker)) { f(a); f(b) }`):
+    # after the helper went into the caller the closure's type is known, so its calls are inlined too (rust-call ABI: (closure, (args..)))
+    if inlined:
+        own = {x.id: x for x in F.closures_of(body)}
+        changed, rounds = True, 0
+        while changed and rounds < 4:
+            changed = False
+            rounds += 1
+            for bb in range(len(nd['blocks'])):
+                t = nd['blocks'][bb]['term']
+                if t['k'] != 'call' or 'fn' not in t['f'] or nd['blocks'][bb]['cleanup']:
+                    continue
+                fn = t['f']['fn']
+                if fn.get('name') not in ('call', 'call_mut', 'call_once') or 'ops::Fn' not in ((fn.get('trait') or '') + (fn.get('path') or '')):
+                    continue
+                ga = fn.get('gargs', [])
+                if not ga or '{closure@' not in ga[0] or len(t['args']) != 2:
+                    continue
+                m = re.search(r'\{closure@([^:]+):(\d+):', ga[0])
+                if not m:
+                    continue
+                cands = [x for x in own.values() if x.kind == 'Closure' and x.file.endswith(m.group(1).split('/')[-1]) and x.line == int(m.group(2))]
+                if len(cands) != 1:
+                    continue
+                cl = cands[0]
+                tup = t['args'][1]
+                assigns = [(1, t['args'][0])]
+                ok = True
+                for i in range(cl.argc - 1):
+                    pl = tup.get('m') or tup.get('c')
+                    if pl is None:
+                        ok = False
+                        break
+                    assigns.append((2 + i, {'m': {'l': pl['l'], 'p': list(pl['p']) + [{'f': i, 'n': str(i)}]}}))
+                if not ok:
+                    continue
+                _splice(nd, bb, cl.d, cl.id, assigns, {})
+                inlined.append(cl.id)
+                changed = True
     return nd, inlined
 
 
+def _splice(nd, bb, c, cid, assigns, gm):
+    """replace the call terminating block bb of nd by the body dict c; assigns = [(callee parameter local, caller operand)]"""
+    term = nd['blocks'][bb]['term']
+    off_l, off_b = len(nd['locals']), len(nd['blocks'])
+    nd['locals'] += [dict(l, ty=_subst_ty(l['ty'], gm)) for l in c['locals']]
+    ln = term.get('fl', nd['blocks'][bb].get('tln', 0))
+    nd['blocks'][bb] = dict(nd['blocks'][bb], stmts=list(nd['blocks'][bb]['stmts']))
+    for pl, a in assigns:
+        nd['blocks'][bb]['stmts'].append({'k': 'a', 'p': {'l': off_l + pl, 'p': []}, 'rv': {'k': 'use', 'op': a}, 'ln': ln, 'inl': cid})
+    tgt = term['t']
+    nd['blocks'][bb]['term'] = {'k': 'goto', 't': off_b}
+    nd['blocks'][bb]['inlined_call'] = cid
+    for blk in c['blocks']:
+        nb = dict(blk)
+        nb['stmts'] = [dict(s_, p=_shift_place(s_['p'], off_l), rv=_shift_rv(s_['rv'], off_l, gm)) if s_['k'] == 'a' else s_ for s_ in blk['stmts']]
+        t = blk['term']
+        if t['k'] == 'return':
+            nb['stmts'] = nb['stmts'] + [{'k': 'a', 'p': term['dest'], 'rv': {'k': 'use', 'op': {'m': {'l': off_l, 'p': []}}}, 'ln': blk.get('tln', ln), 'inl': cid}]
+            nb['term'] = {'k': 'goto', 't': tgt} if tgt is not None and tgt >= 0 else {'k': 'unreachable'}
+        elif t['k'] == 'resume' and isinstance(term.get('uw'), int) and term['uw'] >= 0:
+            nb['term'] = {'k': 'goto', 't': term['uw']}
+        else:
+            nb['term'] = _shift_term(t, off_l, off_b, gm)
+        nb['from_body'] = blk.get('from_body', cid)
+        nd['blocks'].append(nb)
+
+
 def flatten(F, inline_ids):
-    """A new Facts in which calls to the given bodies are inlined; helpers inlined everywhere are removed."""
-    if not inline_ids:
-        return F, {}
+    """A new Facts in which calls to the given bodies are inlined (helpers inlined everywhere are removed), closure-taking
+    iterator consumers are written as loops, and merged Result / Option / bool exits are threaded."""
     G = object.__new__(Facts)
     G.__dict__.update({k: v for k, v in F.__dict__.items() if k != 'bodies' and not k.startswith('_')})  # no per-Facts caches
     G.bodies = {}
@@ -239,13 +282,21 @@ def flatten(F, inline_ids):
         if i in inline_ids:
             continue
         nd, inl = inline_dict(F, b.d, b.crate, inline_ids, cache)
-        if inl:
+        des = False
+        if b.crate in CRATES and not b.is_test_code() and b.kind in ('Fn', 'AssocFn'):
+            try:
+                nd, des = desugar_dict(F, nd)
+            except Exception as e:  # leave the body as it is
+                report.setdefault('desugar-errors', []).append('%s: %r' % (b.path, e))
+                des = False
+        if inl or des:
             nd, _ = thread_dict(nd)
+            inl = inl or ['<iterator consumers as loops>']
             nb = Body(G, b.crate, nd)
             nb.unit, nb.unit_is_test = b.unit, b.unit_is_test
             nb.inlined = inl
             G.bodies[i] = nb
-            report[b.path] = sorted({F.bodies[x].path for x in inl})
+            report[b.path] = sorted({F.bodies[x].path if x in F.bodies else x for x in inl})
         else:
             nb = Body(G, b.crate, b.d)
             nb.unit, nb.unit_is_test = b.unit, b.unit_is_test
@@ -258,7 +309,8 @@ def flatten(F, inline_ids):
     into = defaultdict(set)
     for i, b in G.bodies.items():
         for h in getattr(b, 'inlined', []):
-            into[h].add(i)
+            if h in F.bodies:
+                into[h].add(i)
     changed = True
     while changed:  # helpers inlined into helpers
         changed = False
@@ -360,7 +412,7 @@ def thread_dict(d, max_region=16):
                 x, kind = rv['pl']['l'], 'variant'
                 if any(s['k'] != 'a' or s['p']['l'] != dl for s in blk['stmts']):
                     x = None  # T computes more than the discriminant
-        elif len(dd) >= 2 and not blk['stmts'] and d['locals'][dl]['ty'] == 'bool':
+        elif len(dd) >= 1 and not blk['stmts'] and d['locals'][dl]['ty'] == 'bool':
             x, kind = dl, 'bool'
         if x is None:
             continue
@@ -379,7 +431,8 @@ def thread_dict(d, max_region=16):
         for bb, k, si in xdefs:
             v = _known_value_of_def(d, blocks[bb]['stmts'][si] if k == 'stmt' else blocks[bb]['term'])
             vals.append(v)
-        if any(v is None or v[0] != kind for v in vals) or len({v[1] for v in vals}) < 2:
+        # definitions with a known value are threaded to the arm they must take; the others keep the original switch
+        if not any(v is not None and v[0] == kind for v in vals):
             continue
         defblocks = {bb for bb, _, _ in xdefs}
         if T in defblocks:
@@ -387,6 +440,8 @@ def thread_dict(d, max_region=16):
         plans = []
         ok = True
         for (bb, k, si), v in zip(xdefs, vals):
+            if v is None or v[0] != kind:
+                continue
             # a later definition of x in the same block wins; only the last one per block counts
             if any(b2 == bb and ((k2 == 'term') or (k == 'stmt' and k2 == 'stmt' and s2 > si)) and (b2, k2, s2) != (bb, k, si) for b2, k2, s2 in xdefs):
                 continue
@@ -423,6 +478,26 @@ def thread_dict(d, max_region=16):
             nd = dict(d)
             nd['blocks'] = [dict(b) for b in blocks]
             blocks = nd['blocks']
+        # a threaded definition of a pure temporary (used only on the way to this switch) no longer reaches the original switch:
+        # give it a fresh name, so that a flow-insensitive reader of the remaining switch does not see its value any more
+        base_local = xdefs[0] and None
+        def_locals = set()
+        for (b2, k2, s2) in xdefs:
+            if k2 == 'stmt':
+                def_locals.add(blocks[b2]['stmts'][s2]['p']['l'])
+        if len(def_locals) == 1:
+            y = next(iter(def_locals))
+            allowed = {T}
+            for _bb, region, _arm in plans:
+                allowed |= set(region) | {_bb}
+            ub_y = _use_blocks(nd if nd is not None else d, y)
+            ub_x = _use_blocks(nd if nd is not None else d, x) if x != y else set()
+            if ub_y <= allowed and ub_x <= allowed:
+                rename_defs = [(b2, s2) for (b2, k2, s2), v in zip(xdefs, vals) if k2 == 'stmt' and v is not None and v[0] == kind and any(p_[0] == b2 for p_ in plans)]
+            else:
+                rename_defs = []
+        else:
+            rename_defs = []
         for bb, region, arm in plans:
             base = len(blocks)
             m = {y: base + i for i, y in enumerate(region)}
@@ -442,9 +517,360 @@ def thread_dict(d, max_region=16):
                 nb['dup_of'] = y
                 blocks.append(nb)
             tb = dict(blocks[T])
+            if kind == 'variant':
+                tb['stmts'] = []  # the copy does not test anything: no second definition of the discriminant temporary
             tb['term'] = {'k': 'goto', 't': arm}
             tb['dup_of'] = T
             blocks.append(tb)
             blocks[bb] = dict(blocks[bb], term=retarget(blocks[bb]['term']))
+        for b2, s2 in rename_defs:
+            nd['locals'] = list(nd['locals']) if nd['locals'] is d['locals'] else nd['locals']
+            nd['locals'].append(dict(nd['locals'][blocks[b2]['stmts'][s2]['p']['l']]))
+            st = list(blocks[b2]['stmts'])
+            st[s2] = dict(st[s2], p={'l': len(nd['locals']) - 1, 'p': []})
+            blocks[b2] = dict(blocks[b2], stmts=st)
         changed = True
     return (nd if changed else d), changed
+
+
+# ------------------------------------------------------------------------------------------------------------
+# de-sugaring of closure-taking iterator consumers into explicit loops. `for x in it { f(x) }` and `it.for_each(f)`,
+# a search loop with `break` and `it.any(p)` / `it.find(p)`, a push loop and `v.extend(it.filter(p))` are the same
+# program; the rules are written for the loop shape (Iterator::next, its Some / None edges, the calls in the body).
+# In the normalised view the consumers below are replaced by that loop, with the closure body spliced in:
+#   for_each, try_for_each, any, all, find, Extend::extend (onto Vec / BinaryHeap / HashSet), each optionally fed by one
+#   `filter(pred)` whose only use is this consumer. Nothing else is touched; a consumer that does not fit is left as a call.
+# ------------------------------------------------------------------------------------------------------------
+
+def _single_def(d, local):
+    """(bb, 'stmt', si) / (bb, 'term', None) if `local` (whole) is defined exactly once, else None"""
+    found = []
+    for bb, blk in enumerate(d['blocks']):
+        if blk['cleanup']:
+            continue
+        for si, s in enumerate(blk['stmts']):
+            if s['k'] == 'a' and s['p']['l'] == local and not s['p']['p']:
+                found.append((bb, 'stmt', si))
+        t = blk['term']
+        if t['k'] == 'call' and t['dest']['l'] == local and not t['dest']['p']:
+            found.append((bb, 'term', None))
+    return found[0] if len(found) == 1 else None
+
+
+def _use_blocks(d, local):
+    """blocks in which `local` is read"""
+    out = set()
+
+    def place(p, bb):
+        if p['l'] == local:
+            out.add(bb)
+
+    def op(o, bb):
+        for k in ('m', 'c'):
+            if k in o:
+                place(o[k], bb)
+    for bb, blk in enumerate(d['blocks']):
+        if blk['cleanup']:
+            continue
+        for s_ in blk['stmts']:
+            if s_['k'] != 'a':
+                continue
+            rv = s_['rv']
+            for kk in ('op', 'a', 'b'):
+                if kk in rv:
+                    op(rv[kk], bb)
+            for o in rv.get('ops', []):
+                op(o, bb)
+            if 'pl' in rv:
+                place(rv['pl'], bb)
+            if s_['p']['p'] and s_['p']['l'] == local:
+                out.add(bb)
+        t = blk['term']
+        for o in t.get('args', []):
+            op(o, bb)
+        for kk in ('op', 'cond'):
+            if kk in t:
+                op(t[kk], bb)
+        if t['k'] == 'drop' and t['pl']['l'] == local:
+            out.add(bb)
+        if t['k'] == 'call' and 'indirect' in t['f']:
+            op(t['f']['indirect'], bb)
+    return out
+
+
+def _uses(d, local):
+    n = 0
+
+    def place(p):
+        nonlocal n
+        if p['l'] == local:
+            n += 1
+
+    def op(o):
+        for k in ('m', 'c'):
+            if k in o:
+                place(o[k])
+    for blk in d['blocks']:
+        if blk['cleanup']:
+            continue
+        for s in blk['stmts']:
+            if s['k'] != 'a':
+                continue
+            rv = s['rv']
+            for kk in ('op', 'a', 'b'):
+                if kk in rv:
+                    op(rv[kk])
+            for o in rv.get('ops', []):
+                op(o)
+            if 'pl' in rv:
+                place(rv['pl'])
+        t = blk['term']
+        for o in t.get('args', []):
+            op(o)
+        for kk in ('op', 'cond'):
+            if kk in t:
+                op(t[kk])
+        if t['k'] == 'drop':
+            pass
+    return n
+
+
+def _callable_of(F, d, operand):
+    """the local body an operand denotes: a closure built in this body (returns (body, 'closure')) or a fn item (returns (body, 'fn'))"""
+    if 'k' in operand and isinstance(operand['k'], dict) and 'fn' in operand['k']:
+        b = F.bodies.get(operand['k']['fn'].get('id'))
+        return (b, 'fn') if b is not None else (None, None)
+    pl = operand.get('m') or operand.get('c')
+    if pl is None or pl['p']:
+        return None, None
+    df = _single_def(d, pl['l'])
+    if df is None or df[1] != 'stmt':
+        return None, None
+    rv = d['blocks'][df[0]]['stmts'][df[2]]['rv']
+    if rv['k'] == 'aggr' and rv['ak'].get('closure') in F.bodies:
+        return F.bodies[rv['ak']['closure']], 'closure'
+    if rv['k'] == 'use':
+        return _callable_of(F, d, rv['op'])
+    return None, None
+
+
+CONSUMERS = ('for_each', 'try_for_each', 'any', 'all', 'find')
+
+
+def desugar_dict(F, d, flat_cache=None):
+    nd = None
+    for bb in range(len(d['blocks'])):
+        blk = (nd or d)['blocks'][bb]
+        t = blk['term']
+        if blk['cleanup'] or t['k'] != 'call' or 'fn' not in t['f'] or not isinstance(t.get('t'), int) or t['t'] < 0:
+            continue
+        fn = t['f']['fn']
+        tr = fn.get('trait') or ''
+        name = fn.get('name')
+        is_cons = tr == 'std::iter::Iterator' and name in CONSUMERS and len(t['args']) == 2
+        is_ext = tr == 'std::iter::Extend' and name == 'extend' and len(t['args']) == 2
+        if not (is_cons or is_ext):
+            continue
+        cur = nd or d
+        if is_cons:
+            cb, kind = _callable_of(F, cur, t['args'][1])
+            if cb is None:
+                continue
+            it_op = t['args'][0]
+            push_fn = None
+        else:
+            st = (fn.get('self_ty') or '')
+            head = st.split('<')[0]
+            push_fn = {'std::vec::Vec': ('std::vec::Vec::<T, A>::push', 'push'), 'std::collections::BinaryHeap': ('std::collections::BinaryHeap::<T, A>::push', 'push'),
+                       'std::collections::HashSet': ('std::collections::HashSet::<T, S>::insert', 'insert')}.get(head)
+            if push_fn is None:
+                continue
+            cb, kind = None, None
+            it_op = t['args'][1]
+        ip = it_op.get('m') or it_op.get('c')
+        if ip is None or ip['p']:
+            continue
+        # an upstream `filter(pred)` whose only use is this consumer
+        pred = None
+        src_op = it_op
+        fdef = _single_def(cur, ip['l'])
+        by_ref = False
+        if fdef is not None and fdef[1] == 'stmt':
+            # `&mut iter` taken for a by-reference consumer (any / all / find): look at the referenced local
+            rv = cur['blocks'][fdef[0]]['stmts'][fdef[2]]['rv']
+            if rv['k'] == 'ref' and not rv['pl']['p']:
+                by_ref = True
+                inner_def = _single_def(cur, rv['pl']['l'])
+                base_local = rv['pl']['l']
+            else:
+                inner_def, base_local = None, None
+        else:
+            inner_def, base_local = fdef, ip['l']
+        filt_bb = None
+        if inner_def is not None and inner_def[1] == 'term':
+            ft = cur['blocks'][inner_def[0]]['term']
+            ffn = ft['f'].get('fn', {})
+            if ffn.get('trait') == 'std::iter::Iterator' and ffn.get('name') == 'filter' and len(ft['args']) == 2 and _uses(cur, base_local) <= 2:
+                pb, pkind = _callable_of(F, cur, ft['args'][1])
+                if pb is not None:
+                    pred = (pb, pkind, ft['args'][1])
+                    filt_bb = inner_def[0]
+                    src_op = ft['args'][0]
+        if nd is None:
+            nd = dict(d)
+            nd['locals'] = list(d['locals'])
+            nd['blocks'] = [dict(b_, stmts=list(b_['stmts'])) for b_ in d['blocks']]
+        B = nd['blocks']
+        L = nd['locals']
+        ln = t.get('fl', blk.get('tln', 0))
+
+        def new_local(ty):
+            L.append({'ty': ty})
+            return len(L) - 1
+
+        def new_block(stmts, term):
+            B.append({'cleanup': False, 'stmts': stmts, 'term': term, 'tln': ln, 'synth': True})
+            return len(B) - 1
+
+        def assign(l, rv):
+            return {'k': 'a', 'p': {'l': l, 'p': []}, 'rv': rv, 'ln': ln, 'synth': True}
+
+        def call_callable(cbody, ckind, cop, arg_ops, dest_local, target):
+            """a block that calls the closure / fn with the given operands and continues at `target`; returns block index"""
+            cd = cbody.d
+            if flat_cache is not None and cbody.id in flat_cache:
+                cd = flat_cache[cbody.id]
+            stmts = []
+            assigns = []
+            if ckind == 'closure':
+                envty = cd['locals'][1]['ty'] if len(cd['locals']) > 1 else ''
+                cpl = cop.get('m') or cop.get('c')
+                if envty.startswith('&'):
+                    r = new_local(envty)
+                    stmts.append(assign(r, {'k': 'ref', 'mut': envty.startswith('&mut'), 'pl': {'l': cpl['l'], 'p': cpl['p']}}))
+                    assigns.append((1, {'m': {'l': r, 'p': []}}))
+                else:
+                    assigns.append((1, cop))
+                for i, a in enumerate(arg_ops):
+                    assigns.append((2 + i, a))
+            else:
+                for i, a in enumerate(arg_ops):
+                    assigns.append((1 + i, a))
+            idx = new_block(stmts, {'k': 'call', 'f': {'fn': {'path': cbody.d.get('path', ''), 'id': cbody.id, 'krate': cbody.crate, 'local': True, 'name': cbody.name, 'gargs': []}},
+                                    'args': [], 'dest': {'l': dest_local, 'p': []}, 'dest_ty': cd['locals'][0]['ty'], 't': target, 'uw': -2, 'fl': ln, 'fx': False})
+            _splice(nd, idx, cd, cbody.id, assigns, {})
+            return idx
+        dest, T = t['dest'], t['t']
+        # iterator reference handed to next()
+        sp = src_op.get('m') or src_op.get('c')
+        if sp is None:
+            continue
+        pre = B[bb]['stmts']
+        if is_ext:
+            it_local = new_local('_')
+            conv = new_block([], None)  # filled below: IntoIterator::into_iter(arg) -> it_local
+        if by_ref and pred is None:
+            r_local = ip['l']
+        else:
+            r_local = new_local('&mut _')
+        n_local = new_local('std::option::Option<_>')
+        d_local = new_local('isize')
+        item = new_local('_')
+        res_ty = t.get('dest_ty', '')
+        H = new_block([], None)
+        S = new_block([assign(d_local, {'k': 'discr', 'pl': {'l': n_local, 'p': []}, 'ty': 'std::option::Option<_>'})], None)
+        Bk = new_block([assign(item, {'k': 'use', 'op': {'m': {'l': n_local, 'p': [{'d': 'Some', 'i': 1}, {'f': 0, 'n': '0', 'a': 'std::option::Option'}]}}})], None)
+        B[H]['term'] = {'k': 'call', 'f': {'fn': {'path': 'std::iter::Iterator::next', 'id': 'core::iter::traits::iterator::Iterator::next', 'krate': 'core', 'local': False, 'name': 'next',
+                                                 'gargs': ['_'], 'trait': 'std::iter::Iterator', 'self_ty': '_'}},
+                        'args': [{'m': {'l': r_local, 'p': []}}], 'dest': {'l': n_local, 'p': []}, 'dest_ty': 'std::option::Option<_>', 't': S, 'uw': -2, 'fl': ln, 'fx': False, 'synth': True}
+        # exits
+        unit = {'k': {'ty': '()', 'v': '()'}}
+        true_ = {'k': {'ty': 'bool', 'int': '1', 'v': 'true'}}
+        false_ = {'k': {'ty': 'bool', 'int': '0', 'v': 'false'}}
+
+        def exit_block(stmts):
+            return new_block(stmts, {'k': 'goto', 't': T})
+        dl = dest['l'] if not dest['p'] else None
+        if dl is None:
+            continue
+        if is_ext or name == 'for_each':
+            X = exit_block([assign(dl, {'k': 'use', 'op': unit})])
+        elif name == 'try_for_each':
+            if res_ty.startswith('std::result::Result'):
+                X = exit_block([assign(dl, {'k': 'aggr', 'ak': {'adt': 'std::result::Result', 'variant': 'Ok', 'vi': 0}, 'ops': [unit]})])
+            elif res_ty.startswith('std::option::Option'):
+                X = exit_block([assign(dl, {'k': 'aggr', 'ak': {'adt': 'std::option::Option', 'variant': 'Some', 'vi': 1}, 'ops': [unit]})])
+            else:
+                X = exit_block([assign(dl, {'k': 'aggr', 'ak': {'adt': 'std::ops::ControlFlow', 'variant': 'Continue', 'vi': 0}, 'ops': [unit]})])
+        elif name == 'any':
+            X = exit_block([assign(dl, {'k': 'use', 'op': false_})])
+        elif name == 'all':
+            X = exit_block([assign(dl, {'k': 'use', 'op': true_})])
+        else:  # find
+            X = exit_block([assign(dl, {'k': 'aggr', 'ak': {'adt': 'std::option::Option', 'variant': 'None', 'vi': 0}, 'ops': []})])
+        B[S]['term'] = {'k': 'switch', 'op': {'m': {'l': d_local, 'p': []}}, 'arms': [['0', X]], 'otherwise': Bk}
+        # body
+        item_op = {'m': {'l': item, 'p': []}}
+        after_pred = None
+        if is_ext:
+            pd = new_local('()')
+            body_blk = new_block([], {'k': 'call', 'f': {'fn': {'path': push_fn[0], 'id': push_fn[0], 'krate': 'alloc', 'local': False, 'name': push_fn[1], 'gargs': ['_'],
+                                                                   'impl_self': (fn.get('self_ty') or '').split('<')[0] + '<T>'}},
+                                       'args': [t['args'][0], item_op], 'dest': {'l': pd, 'p': []}, 'dest_ty': '()', 't': H, 'uw': -2, 'fl': ln, 'fx': False, 'synth': True})
+        else:
+            res = new_local(cb.d['locals'][0]['ty'])
+            if name == 'find':
+                ir = new_local('&_')
+                arg = {'m': {'l': ir, 'p': []}}
+                prelude = [assign(ir, {'k': 'ref', 'mut': False, 'pl': {'l': item, 'p': []}})]
+            else:
+                arg = item_op
+                prelude = []
+            # continuation after the closure call
+            if name == 'for_each':
+                cont = H
+            elif name == 'try_for_each':
+                dd = new_local('isize')
+                ok_idx = 1 if res_ty.startswith('std::option::Option') else 0
+                brk = new_block([assign(dl, {'k': 'use', 'op': {'m': {'l': res, 'p': []}}})], {'k': 'goto', 't': T})
+                cont = new_block([assign(dd, {'k': 'discr', 'pl': {'l': res, 'p': []}, 'ty': res_ty or cb.d['locals'][0]['ty']})],
+                                 {'k': 'switch', 'op': {'m': {'l': dd, 'p': []}}, 'arms': [[str(ok_idx), H]], 'otherwise': brk})
+            elif name == 'any':
+                hit = new_block([assign(dl, {'k': 'use', 'op': true_})], {'k': 'goto', 't': T})
+                cont = new_block([], {'k': 'switch', 'op': {'m': {'l': res, 'p': []}}, 'arms': [['0', H]], 'otherwise': hit})
+            elif name == 'all':
+                miss = new_block([assign(dl, {'k': 'use', 'op': false_})], {'k': 'goto', 't': T})
+                cont = new_block([], {'k': 'switch', 'op': {'m': {'l': res, 'p': []}}, 'arms': [['0', miss]], 'otherwise': H})
+            else:  # find
+                hit = new_block([assign(dl, {'k': 'aggr', 'ak': {'adt': 'std::option::Option', 'variant': 'Some', 'vi': 1}, 'ops': [item_op]})], {'k': 'goto', 't': T})
+                cont = new_block([], {'k': 'switch', 'op': {'m': {'l': res, 'p': []}}, 'arms': [['0', H]], 'otherwise': hit})
+            call_blk = call_callable(cb, kind, t['args'][1], [arg], res, cont)
+            B[call_blk]['stmts'] = prelude + B[call_blk]['stmts']
+            body_blk = call_blk
+        if pred is not None:
+            pb, pkind, pop = pred
+            pres = new_local('bool')
+            pr = new_local('&_')
+            sw = new_block([], {'k': 'switch', 'op': {'m': {'l': pres, 'p': []}}, 'arms': [['0', H]], 'otherwise': body_blk})
+            pcall = call_callable(pb, pkind, pop, [{'m': {'l': pr, 'p': []}}], pres, sw)
+            B[pcall]['stmts'] = [assign(pr, {'k': 'ref', 'mut': False, 'pl': {'l': item, 'p': []}})] + B[pcall]['stmts']
+            B[Bk]['term'] = {'k': 'goto', 't': pcall}
+            # the filter call itself is dropped: its source iterator is consumed by the loop
+            ft = B[filt_bb]['term']
+            B[filt_bb] = dict(B[filt_bb], term={'k': 'goto', 't': ft['t']})
+        else:
+            B[Bk]['term'] = {'k': 'goto', 't': body_blk}
+        # entry
+        if is_ext:
+            B[conv]['term'] = {'k': 'call', 'f': {'fn': {'path': 'std::iter::IntoIterator::into_iter', 'id': 'core::iter::traits::collect::IntoIterator::into_iter', 'krate': 'core', 'local': False,
+                                                        'name': 'into_iter', 'gargs': ['_'], 'trait': 'std::iter::IntoIterator', 'self_ty': '_'}},
+                               'args': [src_op], 'dest': {'l': it_local, 'p': []}, 'dest_ty': '_', 't': H, 'uw': -2, 'fl': ln, 'fx': False, 'synth': True}
+            B[conv]['stmts'] = []
+            # next() takes &mut it_local
+            B[H]['stmts'] = [assign(r_local, {'k': 'ref', 'mut': True, 'pl': {'l': it_local, 'p': []}})]
+            B[bb] = dict(B[bb], term={'k': 'goto', 't': conv})
+        else:
+            if not (by_ref and pred is None):
+                B[H]['stmts'] = [assign(r_local, {'k': 'ref', 'mut': True, 'pl': {'l': sp['l'], 'p': sp['p']}})]
+            B[bb] = dict(B[bb], term={'k': 'goto', 't': H})
+    return (nd if nd is not None else d), nd is not None
